@@ -1808,6 +1808,10 @@ func (x *actorSystem) Kill(ctx context.Context, name string) error {
 	pidNode, exist := x.actors.nodeByName(name)
 	if exist {
 		pid := pidNode.value()
+		// the node is being deleted concurrently: the actor is already gone
+		if pid == nil {
+			return gerrors.NewErrActorNotFound(name)
+		}
 		return pid.Shutdown(ctx)
 	}
 
